@@ -153,6 +153,18 @@ def r3_ready(prog, rep: Report, pf: PoolFacts, wrun: Func):
                     if d and len(d) == 2 and d[0] == n.target.id:
                         ev = d[1]
                         loop_ok = not any(isinstance(x, (ast.Break, ast.Return, ast.If)) for x in ast.walk(n))
+    sem = _waits_all_by_paths(prog, pf, uar)
+    if sem is not None and (ev is None or not loop_ok or True):
+        kind, ev2, why = sem
+        if kind == "ok" and (ev is None or not loop_ok or not _plain_top_level(uar)):
+            ev = ev2
+            rep.ok("C04.R3", uar, "waits-all", f"every normal return has, for each element of self.procs, waited on .{ev} without bound, "
+                   f"seen the bounded wait succeed, or seen .{ev}.is_set() (path summaries)")
+            _ready_after_begin(prog, rep, pf, wrun, ev)
+            return
+        if kind == "viol" and ev is None:
+            rep.viol("C04.R3", uar, "waits-all", why, scenario="until_all_ready() returns while a worker is still inside begin()")
+            return
     if ev is None:
         waits = [c for c in calls_in(uar.node) if isinstance(c.func, ast.Attribute) and c.func.attr == "wait" and not c.args and not c.keywords]
         if waits and any(isinstance(n_, ast.Attribute) and n_.attr == "procs" for n_ in ast.walk(uar.node)):
@@ -187,6 +199,87 @@ def r3_ready(prog, rep: Report, pf: PoolFacts, wrun: Func):
         rep.check("C04.R3", uar, "waits-all", loop_ok, f"waits on .{ev} of every element of self.procs, on every path",
               "the wait loop can skip workers (break/return/condition inside)",
               scenario="until_all_ready() returns while a worker is still inside begin()")
+    _ready_after_begin(prog, rep, pf, wrun, ev)
+
+
+def _plain_top_level(uar: Func) -> bool:
+    """the wait loop is a top-level statement with nothing that can leave the function before it (the form the syntactic reading
+    of `waits-all` decides by itself)"""
+    for st in uar.node.body:
+        if isinstance(st, ast.For):
+            return not any(isinstance(x, (ast.Break, ast.Return, ast.If)) for x in ast.walk(st))
+        if isinstance(st, ast.With):
+            continue
+        if any(isinstance(x, (ast.Return, ast.Raise)) for x in ast.walk(st)):
+            return False
+    return False
+
+
+def _waits_all_by_paths(prog, pf: PoolFacts, uar: Func):
+    """('ok' | 'viol' | 'unrec', event field, why) from the path summaries of until_all_ready (E11): on every normally returning path,
+    every iteration over self.procs is justified by an unbounded wait on the element's event, a bounded wait whose result was seen
+    true, or `is_set()` seen true; a `return` inside the loop, or a path without the loop, is not"""
+    from ..paths import strip_versions, subterms, summaries
+    try:
+        paths, un = summaries(prog, uar, pf.pool)
+    except Exception:
+        return None
+    if un:
+        return None
+    normal = [p for p in paths if p.exit == "return"]
+    if not normal:
+        return None
+
+    def is_procs(t) -> bool:
+        t = strip_versions(t)
+        return isinstance(t, tuple) and t[:1] == ("attr",) and t[1] == ("self",) and t[2] == "procs"
+    for n in ast.walk(uar.node):
+        if isinstance(n, ast.For) and dotted(n.iter) == (uar.self_name, "procs"):
+            if any(isinstance(x, (ast.Return, ast.Break)) for x in ast.walk(n)):
+                return ("viol", None, "the loop over self.procs can be left (return / break) before every worker was waited for")
+    evs = set()
+    if not any(e[0] == "loop" and is_procs(e[2]) for p in normal for e in p.events):
+        return None              # self.procs is not walked by a `for` loop at all (a position counter, a helper ...): not read here
+    for p in normal:
+        if not any(e[0] == "loop" and is_procs(e[2]) for e in p.events):
+            return ("viol", None, "a path through until_all_ready returns without the wait loop over self.procs")
+        for i, e in enumerate(p.events):
+            if not (e[0] == "iter" and isinstance(e[2], tuple) and e[2][:1] == ("elem",) and is_procs(e[2][1])):
+                continue
+            el = strip_versions(e[2])
+            just = None
+            for x in p.events[i + 1:]:
+                if x[0] == "call" and x[1] == "wait":
+                    r = strip_versions(x[2]) if x[2] is not None else None
+                    if isinstance(r, tuple) and r[:1] == ("attr",) and strip_versions(r[1]) == el:
+                        if not x[3]:
+                            just = r[2]
+                        else:
+                            # bounded: the path must have seen the result true
+                            for t, outcome in p.decisions:
+                                neg = False
+                                while isinstance(t, tuple) and t[:1] == ("not",):
+                                    t, neg = t[1], not neg
+                                if any(isinstance(st, tuple) and len(st) > 2 and st[1] == "wait" for st in subterms(t)) and (outcome != neg):
+                                    just = r[2]
+            for t, outcome in p.decisions:
+                neg = False
+                while isinstance(t, tuple) and t[:1] == ("not",):
+                    t, neg = t[1], not neg
+                for st in subterms(t):
+                    if len(st) > 2 and st[1] == "is_set" and (outcome != neg):
+                        r = strip_versions(st[2])
+                        if isinstance(r, tuple) and r[:1] == ("attr",) and strip_versions(r[1]) == el:
+                            just = just or r[2]
+            if just is None:
+                return ("viol", None, "an iteration over self.procs goes on without having waited for that worker's event")
+            evs.add(just)
+    if len(evs) != 1:
+        return None
+    return ("ok", next(iter(evs)), "")
+
+
+def _ready_after_begin(prog, rep: Report, pf: PoolFacts, wrun: Func, ev: str):
     client = _Ready(pf, ev)
     it = Interp(prog, client)
     it.run(wrun, {(False, False, False)}, pf.worker)
@@ -209,6 +302,29 @@ class _Quota(Client):
     def should_inline(self, func, call, ctx):
         # the worker's own private helpers (`_process_chunk`, `_send_result`) are part of the round
         return func.cls is not None and func.cls in self.pf.worker.repo_mro() and func.name.startswith("_") and not func.name.startswith("__")
+
+    def refine(self, test, state, ctx):
+        # `self.<quota> != math.inf` / `== math.inf` / `math.isinf(self.<quota>)`: on the branch where the quota is infinite the
+        # decrement is a no-op (inf - 1 == inf), so that branch counts as having decremented
+        put, dec = state
+        neg = False
+        t = test
+        while isinstance(t, ast.UnaryOp) and isinstance(t.op, ast.Not):
+            t, neg = t.operand, not neg
+        is_inf = None
+        if isinstance(t, ast.Compare) and len(t.ops) == 1 and isinstance(t.ops[0], (ast.Eq, ast.NotEq, ast.Is, ast.IsNot)):
+            a, b = t.left, t.comparators[0]
+            for x, y in ((a, b), (b, a)):
+                if dotted(x) == (ctx.func.self_name, self.q) and src(y) in ("math.inf", "inf", "float('inf')", 'float("inf")'):
+                    is_inf = isinstance(t.ops[0], (ast.Eq, ast.Is))
+        elif isinstance(t, ast.Call) and src(t.func) in ("math.isinf", "isinf") and t.args and dotted(t.args[0]) == (ctx.func.self_name, self.q):
+            is_inf = True
+        if is_inf is None:
+            return (state,), (state,)
+        inf_state, fin_state = (put, True), state
+        if is_inf != neg:
+            return (inf_state,), (fin_state,)
+        return (fin_state,), (inf_state,)
 
     def event(self, kind, node, state, ctx):
         put, dec = state
@@ -348,6 +464,11 @@ def r6_replaced_joined(prog, rep: Report, pf: PoolFacts):
     joins = [m for _, m in sorted(set(client.problems)) if "join" in m or "'received'" in m]
     # (the thread's private helpers count as part of the loop: the order client follows them)
     bodies = [run_.node] + [m.node for m in th.methods.values() if m.name.startswith("_") and not m.name.startswith("__")]
+    # private helpers of the pool that the loop calls (`self.pool._join_process(p, ...)`) belong to the loop as well
+    called = {c.func.attr for b_ in list(bodies) for c in calls_in(b_) if isinstance(c.func, ast.Attribute)}
+    for k_ in pf.fpool.repo_mro():
+        if not k_.is_external:
+            bodies += [m.node for m in k_.methods.values() if m.name in called and m.name.startswith("_") and not m.name.startswith("__")]
     has_join = any(isinstance(c.func, ast.Attribute) and c.func.attr == "join" for b_ in bodies for c in calls_in(b_))
     rep.check("C04.R6", run_, "retired-joined", has_join and not joins,
               "the retired worker is joined before its slot in self.procs is overwritten",
